@@ -527,7 +527,8 @@ def run_batch(modname, tier, base_seed, runs=None, workers=None, wall_cap=None,
             break
         say(f"  violation seed={r['seed']} oracle={v['oracle']} kind={v.get('kind','')}: {v['msg'][:300]}")
         sig0 = mod.known_sig(r["scenario"], v) if hasattr(mod, "known_sig") else None
-        best = shrink(mod, tier, r["tape"], k, log=say, want_sig=sig0)
+        fast = os.environ.get("VERIF_FAST_REPORT") == "1"     # (kill matrix: verdict only, no minimisation, no replay check)
+        best = shrink(mod, tier, r["tape"], k, log=say, want_sig=sig0) if not fast else (r["scenario"], r["violations"], r["tape"])
         history = None
         if best is None:
             best = (r["scenario"], r["violations"], r["tape"])
@@ -556,8 +557,8 @@ def run_batch(modname, tier, base_seed, runs=None, workers=None, wall_cap=None,
             replay["history_seeds"] = history
         with open(path, "w") as f:
             f.write(dumps(replay, indent=1))
-        ok = verify_replay(modname, path)
-        if ok and history:
+        ok = True if fast else verify_replay(modname, path)
+        if ok and history and not fast:
             # minimise the history: the shortest suffix (1, 2, 4, ... seeds) after which the violation still appears
             k = 1
             while k < len(history):
